@@ -30,13 +30,17 @@ TRUSTED = ["the numeric services of C02 (token -> float table, NULL -> float) ar
            "`Tf.relayout` uses the model header-line parser where transforms.py uses the real `read_header_line` (their agreement is C04's tie; "
            "a difference would show up in the tf.apply stream)",
            "Python `str.split()`, `str.strip()`, `str.split(ch)` = `pySplit`, `strip`, `splitOnChar` (C02's unit streams)"]
-ASSUMPTIONS = ["base file readable (the model theorems: `readFull lines = .ok r`)",
-               "nothing is inserted into / removed from a ~Other section, title lines are not indented (documented decisions, transforms.py)",
-               "re-padding / re-wrapping / re-delimiting: no quote character in the data lines touched; re-wrapping: WRAP declared YES with d >= 1 "
-               "declared curves, no token starting with '#', the run-on(-) substitution neutral on every token (C09_rewrap_needs_hyphen_neutral)",
-               "numpy engine: the data section is PlainData in the sense of C02 (outside it the two engines already disagree on the BASE file, and a "
-               "blank line toggles which one answers)",
-               "header line layout: the parsed fields are conformant and the paddings admissible in the sense of C04 (`Conf`, `PadOK`)"]
+ASSUMPTIONS = ["base file readable (theorems: `Base`: `readFull d = .ok r`)",
+               "nothing is inserted into / removed from a ~Other section (its text is content: theorem C09_other_is_content); title lines may be "
+               "padded since the repair ab31372 of the ~Other loop",
+               "re-padding / re-wrapping / re-delimiting: no quote character in the data lines touched (C09_quote_needed); re-wrapping: WRAP "
+               "declared YES with d >= 1 declared curves, no token starting with '#' or '~', the run-on(-) substitution neutral on every token "
+               "(`WrapOK`, C09_rewrap_needs_hyphen_neutral = known finding rewrap-hyphen-rule)",
+               "numpy engine in effect: the two engines agree on every data section of the base (`AgreeAlone`; C09_agree_of_plain: every PlainData "
+               "section of C02; C09_agree_needed = known finding numpy-midline-hash); float() rejects tokens starting with '~' (`TildeNotFloat`)",
+               "header line layout: the parsed fields are conformant and the paddings admissible in the sense of C04 (`Conf`, `PadOK`), neither the "
+               "line nor the mnemonic starts with '#' or '~' (`RelayOK`); TAB/COMMA re-padding and re-delimiting: tested on the real code, proved "
+               "only as far as C09_repad_delimited_keeps_padding says (known finding dlm-pad-text for text cells)"]
 
 ENGINES = ("numpy", "normal")
 MODEL_MAX_LINES = 400
@@ -276,7 +280,7 @@ def _touches_text_cell(text, ts):
             cells = tf.cells_of(t[2], tf.split_eol(doc_lines[t[1]])[0]) if t[1] < len(doc_lines) else []
             if any(not tf._is_number(c) for c in cells):
                 return True
-        if t[0] == "redelim" and t[6] != "SPACE":
+        if t[0] == "redelim" and (t[5] != "SPACE" or t[6] != "SPACE"):
             for l in tf.body_lines(doc_lines, t[1], t[2]):
                 if not tf.is_skip(l) and any(not tf._is_number(c) for c in tf.cells_of(t[5], tf.split_eol(l)[0])):
                     return True
@@ -352,14 +356,6 @@ def model_read_compare(run, pend, stream, text, eng, real, in_domain):
     if steer is None or not dd.modelled(steer, {}) or not ld.in_sigma(text) or text.count("\n") > MODEL_MAX_LINES:
         run.dist["model-read-skipped"] += 1
         return
-    if re.search(r"(?m)^[^\S\n]+~[Oo]", text):
-        # `Rd.otherLoop` models the ~Other loop before the repair ab31372 (raw `line.startswith("~")`): indented ~O titles are
-        # compared through the real code only
-        run.dist["model-read-skipped-indented-other"] += 1
-        return
-    if not any(not tf.is_skip(l) for (a, b) in steer["windows"] for l in tf.body_lines(dd.split_lines(text), a, b)):
-        # no data row: `Dt.numpyEngine` still models genfromtxt's empty column of before the repair 627c42f -> context
-        in_domain = False
     ft = dd.float_table(text)
     req = {"op": "tf.read", "text": text, "ignore": False, "case": "preserve", "engine": eng, "null_policy": "strict",
            "null": dd.null_text(steer["null"]), "floats": ft}
@@ -461,7 +457,7 @@ def run(run):
             texts.append("".join(tf.apply1(t, dd.split_lines(texts[-1]))))
         check_case(run, pend, base, ts, texts, ["probe:" + pid], {})
     # (1) generated bases
-    for _ in range(run.budget(330, 9000)):
+    for _ in range(run.budget(400, 9000)):
         base, info = gen_base(rng)
         run_base(run, pend, base, info, ["generated", "base=" + info["kind"]], run.budget(3, 4))
     # wide wrapped files: every width
@@ -541,9 +537,17 @@ def replay(run, payload):
 
 
 LEVEL_TEXT = ("Machine-checked Lean 4 theorems about the executable models of the header-level reader (Lasio.Rd) and the data-section reader "
-              "(Lasio.Dt) glued into one whole-file function `Tf.readModel`, and about the presentation transformations as total functions on "
-              "the line list (`LasioModel/Transform.lean`, the same functions the harness applies to the real reader's input). Tie: Python "
-              "transformation = Lean transformation on every case (tf.apply), whole-file model vs real read on base and transformed text "
-              "(tf.read), and the property's oracle on the real code for both engines.")
-LEVEL_NOTE = ("see the header of LasioProofs/Props/C09.lean for the exact statement reached per transformation and what is only proved at line / "
-              "section level")
+              "(Lasio.Dt) glued into one whole-file function `Tf.readFull`/`Tf.readModel` (header items of all sections, ~Other text, curves of all "
+              "data sections), and about the presentation transformations as total functions on the line list (LasioModel/Transform.lean — the same "
+              "functions the harness applies to the real reader's input). C09_step: insert blank / '#' comment line anywhere outside ~Other, new "
+              "padding around any line, re-padding of a quote-free data line (SPACE delimiter), a conformant header item line laid out again with new "
+              "paddings (through C04), LF<->CRLF, drop/add final newline, re-wrapping of a "
+              "WRAP=YES section, each under an explicit decidable side condition, leave readModel of every readable document unchanged; "
+              "C09_compose: so does every finite composition whose side conditions hold along the way (induction on the list). Line/window level: "
+              "C09_strip_is_all, C09_repad_data (the data reader sees a quote-free line through its words only), C09_skip_data (flat item sequence, "
+              "21-data-line sniffer sample, hyphen rule; engine may change numpy->normal), C09_rewrap, C09_skip_header, C09_header_padding "
+              "(corollary of C04). Tie: Python transformation = Lean transformation on every case (tf.apply), whole-file model vs real read on "
+              "base and transformed text (tf.read), and the property's oracle on the real code for both engines.")
+LEVEL_NOTE = ("Not covered by the whole-file theorem (OK = False; oracle and correspondence only): TAB/COMMA re-padding and re-delimiting "
+              "(switching the declared delimiter). Known findings reproduced on every run: dlm-pad-text, rewrap-hyphen-rule, "
+              "numpy-midline-hash. The numeric services (token->float table, NULL->float) are parameters of the model.")
